@@ -475,7 +475,7 @@ func (m *Map) doCompute(
 				newValue, del := valueFn(zeroedV, false)
 				if del {
 					unlockBucket(&rootb.topHashMutex)
-					return newValue, false
+					return zeroedV, false
 				}
 				// Create and append a bucket.
 				newb := new(bucketPadded)
